@@ -203,7 +203,7 @@ static const char* const fail_classes[] = {
     "index_leading_zero", "index_negative", "index_plus", "index_nonnumeric", "dash_remove", "move_missing_from", "copy_missing_from",
     "missing_op", "missing_path", "missing_value", "missing_from", "unknown_op", "bad_pointer_tilde", "bad_pointer_noslash", "move_into_child",
     "index_eq_size_remove", "index_eq_size_replace", "index_eq_size_test", "dash_replace", "dash_test", "dash_from", "op_not_string", "test_type_mismatch",
-    "scalar_parent", "bad_pointer_trailing_tilde"
+    "scalar_parent", "bad_pointer_trailing_tilde", "op_not_object", "path_not_string", "from_not_string"
 };
 constexpr size_t n_fail_classes = sizeof(fail_classes) / sizeof(fail_classes[0]);
 
@@ -282,6 +282,9 @@ inline MVal gen_bad_op(Rng& r, const MVal& doc, const std::string& cls) {
         for (auto& p : paths) { MVal* n = resolve(d, p, p.size()); if (n->k != MVal::Arr && n->k != MVal::Obj && r.chance(1, 2)) { auto q = p; q.push_back("0"); o = mk_op("add", make_ptr(q)); o.set("value", MVal::integer(1)); return o; } }
         return MVal();
     }
+    if (cls == "op_not_object") { unsigned k = (unsigned)r.below(5); if (k == 0) return MVal::integer(42); if (k == 1) return MVal::str("remove"); if (k == 2) return MVal::boolean(true); if (k == 3) { MVal a = MVal::arr(); a.push(MVal::str("op")); return a; } return MVal::dbl(1.5); }
+    if (cls == "path_not_string") { o = MVal::obj(); o.set("op", MVal::str("remove")); o.set("path", MVal::integer(0)); return o; }
+    if (cls == "from_not_string") { o = mk_op("copy", "/x"); o.set("from", MVal::integer(0)); if (doc.k != MVal::Obj) return MVal(); return o; }
     if (cls == "bad_pointer_trailing_tilde") { o = mk_op("test", "/a~"); o.set("value", MVal::integer(1)); return o; }
     if (cls == "move_into_child") {
         // move a container into its own descendant
